@@ -109,6 +109,111 @@ def run_shard(prefs):
     return part.result()
 
 
+# ---- declarations and system-section constructs beyond the abstract model: verbatim text in both renderings ----------
+EXTRAS = [   # (place, text); every one is accepted on its own next to the base model
+    ("g", " typedef scalar[3] sid_t; sid_t sv; int bysid[sid_t];"),
+    ("g", " typedef struct { int f; bool fl[2]; } rec_t; rec_t r1 = { 1, { true, false } }; rec_t rs[2];"),
+    ("g", " int fx(int a, int &b) { int k = a; while (k > 0) { k--; b += k; } for (i : int[0,2]) b += i; if (b > 9) return 9; else b = b ? 1 : 2; return b; }"),
+    ("g", " const int NN = 3; int arr[NN] = { 1, 2, 3 }; int mat[2][NN]; typedef int[0, NN - 1] idx_t; int byidx[idx_t];"),
+    ("g", " chan priority c < bc;"),
+    ("g", " chan cs[2]; urgent chan uc; chan priority default < cs[0], cs[1] < uc;"),
+    ("g", " meta int mi; urgent broadcast chan ubc; hybrid clock hx; double dd = 1.5; const double ee = 2.5e-1;"),
+    ("g", " void bu() { g2 = 1; } before_update { bu(), gb = 2 } after_update { gc = 0 }"),
+    ("g", " typedef struct { int a; struct { int b; } in; } nest_t; nest_t nv; const nest_t nc = { 1, { 2 } }; int fnest(nest_t q) { return q.in.b + nc.a; }"),
+    ("g", " bool bb = true; int[0,5] ri = 3; int[-2,2] rj; const int cc = 4; int sh = cc << 1;"),
+    ("g", " int fone(int n) { return n <= 0 ? 0 : 1 + n; } int ftwo(int n) { return fone(fone(n)); } void fvoid() { ; }"),
+    ("g", " int qf() { return (forall (i : int[0,2]) i >= 0) && (exists (j : int[0,1]) j == 1) ? (sum (k : int[0,2]) k) : 0; }"),
+    ("t", " typedef struct { int a; } lr_t; lr_t lr; int lf(int q) { return q + lr.a; }"),
+    ("t", " clock lx2; const int LN = 2; int la[LN]; void lg() { la[0] = g1; lx2 = 0; }"),
+    ("t", " typedef scalar[2] ls_t; ls_t lsv; meta int lm;"),
+    ("pre", "int sysv = 3; chan sc;\n"),
+    ("pre", "typedef int[0,1] sys_t; const sys_t sk = 1;\nint sfun(int a) { return a + sk; }\n"),
+    ("post", "\nprogress { g1; g2 + 1; }"),
+    ("post", "\nprogress { g1 : g2; }"),
+    ("post", "\ngantt { G1 : g1 > 0 -> 1; G2(k : int[0,1]) : g2 == k -> k, for (q : int[0,1]) g1 == q -> q + 1; }"),
+    ("post", "\nprogress { g2; }\ngantt { G3 : true -> 0; }"),
+]
+
+
+def with_extras(picks):
+    m, r = choice.run(gen, [])
+    for place, text in picks:
+        if place == "g":
+            m.xg += text
+        elif place == "t":
+            m.tpls[0].xdecl += text
+        elif place == "pre":
+            m.xs_pre += text
+        else:
+            m.xs_post += text
+    return m
+
+
+def run_extras(arg):
+    i, n = arg
+    part = engine.Part()
+    w = engine.worker("fast")
+    sets = [[e] for e in EXTRAS] + [[a, b] for a in EXTRAS for b in EXTRAS if a is not b and not (a[0] == b[0] == "post")]
+    sets = [s for k, s in enumerate(sets) if k % n == i]
+    docs = []
+    for picks in sets:
+        m = with_extras(picks)
+        docs.append((picks, MG.render_xml(m), MG.render_xta(m)))
+    rx = xmlgen.run_docs(w, [d[1] for d in docs], want=["dump", "nosymtypes"], batch=50)
+    ra = xmlgen.run_docs(w, [d[2] for d in docs], want=["dump", "nosymtypes"], batch=50, kind="xta")
+    for (picks, x, a), px, pa in zip(docs, rx, ra):
+        part.count()
+        key = "extras:" + "|".join(t.strip()[:30] for _, t in picks)
+        rp = {"xml": {"op": "xml", "buf": x, "want": ["dump", "nosymtypes"]}, "xta": {"op": "xta", "buf": a, "want": ["dump", "nosymtypes"]},
+              "extras": picks, "op": "xml", "buf": x}
+        if engine.check_crash(part, PID, px, "xml of " + key, rp) or engine.check_crash(part, PID, pa, "xta of " + key, rp):
+            continue
+        part.nontrivial_case(key)
+        ex, ea = px.get("exc"), pa.get("exc")
+        if ex or ea:
+            part.outcome("exception")
+            part.violation("exception:" + key, "xml exc=%s xta exc=%s for the same model (%s)" % (ex, ea, key), rp)
+            continue
+        mx, ma = xmlgen.msgs(px), xmlgen.msgs(pa)
+        if mx != ma:
+            part.outcome("diagnostics-differ")
+            part.violation("diagnostics-differ:" + key, "diagnostics differ: xml %s vs xta %s (%s)" % (mx[:3], ma[:3], key), rp)
+            continue
+        if mx:
+            if len(picks) == 1:
+                raise RuntimeError("C05 generator bug: extra text rejected on its own: %s %s" % (picks, mx[:2]))
+            part.outcome("equivalent/extras-rejected-pair")       # e.g. two channel-priority declarations; same verdict both ways
+            continue
+        d = MG.diff(strip(px["dump"]), strip(pa["dump"]))
+        if d:
+            part.outcome("documents-differ")
+            part.violation("documents-differ:%s:%s" % (generic_path(d[0]), key), "documents differ at %s: xml %s vs xta %s (%s)" %
+                           (d[0], json.dumps(d[1])[:160], json.dumps(d[2])[:160], key), rp)
+            continue
+        if px["methods"] != pa["methods"]:
+            part.outcome("verdict-differs")
+            part.violation("verdict-differs:" + key, "supported methods differ: xml %s xta %s" % (px["methods"], pa["methods"]), rp)
+            continue
+        # the extra constructs must actually be in the document (not dropped by both readers alike)
+        g = px["dump"]["globals"]
+        lost = []
+        for place, text in picks:
+            if "progress" in text and not g.get("progress"):
+                lost.append("progress")
+            if "gantt" in text and not g.get("gantt"):
+                lost.append("gantt")
+            if "chan priority" in text and not px["dump"].get("chan_priorities"):
+                lost.append("chan priority")
+            if "before_update" in text and px["dump"].get("before_update") in (None, "()"):
+                lost.append("before_update")
+        if lost:
+            part.outcome("construct-lost")
+            part.violation("construct-lost:%s" % lost[0], "%s is in neither document (%s)" % (lost, key), rp)
+            continue
+        part.outcome("equivalent/extras")
+    return part.result()
+
+
 def generic_path(p):
     import re
     return re.sub(r"\d+", "N", p)
@@ -124,13 +229,19 @@ def main():
                         "choice-tree exploration (<= %d deviations) of the abstract model generator restricted to the XML/XTA common "
                         "subset (named locations, branchpoints, all label kinds, -u-> edges, {inv ; rate} states, urgent/commit, "
                         "parameters, instantiation, priorities), each model rendered as .xml and as .xta; for the base model and every "
-                        "single deviation additionally 4 faults injected at the same site in both renderings." % b)
+                        "single deviation additionally 4 faults injected at the same site in both renderings. Constructs beyond the abstract "
+                        "model as verbatim text in both renderings: %d texts (scalar sets, records, nested records, functions with every "
+                        "statement kind, arrays over typedefs, channel priorities, meta/urgent/hybrid/double declarations, before/after "
+                        "update, template-local types and functions, system-section declarations, progress measures, gantt charts) alone "
+                        "and in all ordered pairs." % (b, len(EXTRAS)))
     prefs = choice.prefixes(gen, b)
     rep.extra["choice_sequences"] = len(prefs)
     n = engine.ncpu()
     chunk = max(1, min(300, len(prefs) // (n * 4) + 1))
     shards = [prefs[i:i + chunk] for i in range(0, len(prefs), chunk)]
     for res in engine.pmap(run_shard, shards):
+        rep.merge(res)
+    for res in engine.pmap(run_extras, [(i, n) for i in range(n)]):
         rep.merge(res)
     rep.assumptions = ["edge_t::actname is ignored (XML-only `action` attribute, default \"SKIP\")",
                        "diagnostics are compared as multisets of messages (positions are encoded per format)",
